@@ -45,17 +45,19 @@ JOBS = 12
 SPEC_TIMEOUT = 240
 CONFIRM_ALONE = ('worker_silent', 'exit_delayed_after_consumption', 'scenario_hung', 'guard_exit_never')
 FLOORS = {
-    'quick': {'iso:lifetimes': 50, 'iso:ack': 400, 'iso:ready': 300, 'iso:nack_sent': 40,
-              'iso:death_155': 25, 'iso:spawn_lifetimes': 8, 'iso:fork_lifetimes': 25,
-              'iso:nack_with_quota': 10, 'iso:base_exc_ready': 15, 'iso:encoding_error_ready': 15,
-              'iso:ack_time_checked': 400, 'iso:late_credit_held': 5, 'iso:quota_exits_checked': 25,
-              'iso:syn_delay_over_poll': 1,
-              'pool:scenarios': 4, 'pool:accept_before_result': 20, 'pool:refused_jobs': 4,
-              'pool:owner_checked': 20,
-              'parent:histories': 600, 'parent:nack_sent': 200, 'parent:cancel_after_ack': 100},
-    'thorough': {'iso:lifetimes': 400, 'iso:ack': 4000, 'iso:nack_sent': 400, 'iso:death_155': 200,
-                 'iso:spawn_lifetimes': 60, 'iso:guard_waited': 1,
-                 'pool:scenarios': 30, 'pool:refused_jobs': 40,
+    'quick': {'iso:lifetimes': 60, 'iso:ack': 200, 'iso:ready': 150, 'iso:nack_sent': 45,
+              'iso:death_155': 30, 'iso:spawn_lifetimes': 10, 'iso:fork_lifetimes': 45,
+              'iso:nack_with_quota': 30, 'iso:base_exc_ready': 25, 'iso:encoding_error_ready': 25,
+              'iso:ack_time_checked': 200, 'iso:late_credit_held': 6, 'iso:quota_exits_checked': 30,
+              'iso:refused_jobs_checked': 45, 'iso:syn_wait_checked': 60, 'iso:gate_checked': 5,
+              'pool:scenarios': 6, 'pool:accept_before_result': 20, 'pool:refused_jobs': 8,
+              'pool:owner_checked': 20, 'pool:recycle_exits_checked': 1,
+              'parent:histories': 600, 'parent:nack_sent': 200, 'parent:cancel_after_ack': 100,
+              'parent:map_owner_checked': 200},
+    'thorough': {'iso:lifetimes': 400, 'iso:ack': 2000, 'iso:ready': 1500, 'iso:nack_sent': 400,
+                 'iso:death_155': 200, 'iso:spawn_lifetimes': 60, 'iso:guard_waited': 1,
+                 'iso:nack_with_quota': 200, 'iso:late_credit_held': 30,
+                 'pool:scenarios': 30, 'pool:refused_jobs': 40, 'pool:recycle_exits_checked': 5,
                  'parent:histories': 6000},
 }
 
@@ -71,8 +73,8 @@ PLAIN = ('ok', 'none', 'sleep', 'big', 'gate')
 def plan(tier, seed):
     specs = []
     if tier == 'quick':
-        n_fork, n_spawn, per_fork, per_spawn = 16, 6, 6, 3
-        n_pool, n_parent, hist = 10, 2, 600
+        n_fork, n_spawn, per_fork, per_spawn = 16, 8, 8, 4
+        n_pool, n_parent, hist = 14, 2, 600
     else:
         n_fork, n_spawn, per_fork, per_spawn = 44, 16, 12, 6
         n_pool, n_parent, hist = 60, 6, 2500
@@ -154,7 +156,7 @@ def gen_lifetime(rng, method, tier, guard=False):
              'syn_delay': rng.choice([0, 0, 0, 0.003, 0.02, 0.08]) if syn else 0}
         jobs.append(j)
     if syn and n >= 2 and rng.random() < 0.12:
-        rng.choice(jobs)['syn_delay'] = 1.25      # longer than the worker's 1 s poll
+        rng.choice(jobs)['syn_delay'] = 1.25      # a slow parent
     if p['mode'] != 'lockstep':
         # a gate needs the harness to act after the ACK only: fine in any
         # mode; but keep pipelined TASK messages small (one pipe buffer)
@@ -561,7 +563,7 @@ def judge_lifetime(p, h, rec):
                     V('task_started_before_syn_answer', kattr, task_start=st[0]['t'],
                       syn_answer_sent=syn[1], delay=j['syn_delay'])
                 if j['syn_delay'] > 1.0:
-                    rec.count('iso:syn_delay_over_poll')
+                    rec.count('iso:syn_delay_long')
             go = h.get('gate_opened', {}).get(jid)
             en = ends.get(tag)
             if go and en:
